@@ -8,7 +8,7 @@
    with Flocq's binary32 (LMBase.IEEE.F32). *)
 From Coq Require Import List NArith ZArith Bool Arith.
 From LMBase Require Import Res ListX IEEE.
-From LMIo Require Import IoBase IoNom IoJaspar.
+From LMIo Require Import GenIoAbc IoBase IoNom IoJaspar.
 Import ListNotations.
 
 Section Uniprobe.
@@ -19,9 +19,15 @@ Section Uniprobe.
   Definition u_frequencies : parser (list F32.t) :=
     p_many1 (p_preceded (p_char 9) (p_float parse_f32)).
 
-  (* terminated(separated_pair(symbol, char(':'), frequencies), line_ending) *)
+  (* terminated(separated_pair(symbol, char(':'), frequencies), END) where END is `line_ending`
+     or -- once the last column line of a file may lack its newline -- `alt((line_ending, eof))`;
+     which one the source has is re-read on every run (GenIoAbc.gen_uniprobe_col_eof) *)
+  Definition u_col_end_of (eof : bool) : parser (list N) :=
+    if eof then p_alt p_line_ending p_eof else p_line_ending.
+  Definition u_col_end : parser (list N) := u_col_end_of gen_uniprobe_col_eof.
+
   Definition u_matrix_column : parser (nat * list F32.t) :=
-    p_terminated (p_separated_pair (p_symbol A) (p_char 58) u_frequencies) p_line_ending.
+    p_terminated (p_separated_pair (p_symbol A) (p_char 58) u_frequencies) u_col_end.
 
   (* map(terminated(not_line_ending, line_ending), str::trim) *)
   Definition u_id : parser (list N) :=
